@@ -95,7 +95,7 @@ func workerMain() {
 				stuck = 0
 			}
 			last = p
-			if stuck >= 6 {
+			if stuck >= 10 { // 20 s without a single hook event
 				send(out, &Msg{ID: int(atomic.LoadInt64(&curJob)), Hang: curKey.Load().(string)})
 				os.Exit(3)
 			}
